@@ -18,6 +18,7 @@
      close(conn.decrypted) by the exiting read loop     -> dec_closed
      readDeadline / writeDeadline expired               -> rd_dl / wr_dl
      the HandshakeContext ctx is done                   -> hctx
+     the socket does not take writes (blocking transport whose peer stopped reading) -> wr_blk
 
    Threads: any number of goroutines calling Close() (list [us]), the read-loop goroutine of
    handshake() ([rd]) and the goroutine inside HandshakeContext ([hs]).  Every constructor of
@@ -26,9 +27,16 @@
    consistent with program order" is "every list of ops" (program order is kept by the
    program counters; a step of a blocked or finished thread is a no-op).
 
+   Socket writes that block: close() gives its close_notify write closeNotifyTimeout (5 s, commit
+   8ae01eb) and then goes on to nextConn.Close(), so under [wr_blk] the step completes without a
+   record; the read loop's close_notify reply is written under ctxRead and waits until that is
+   cancelled or the socket is closed.  (Before 8ae01eb the write of close() had
+   context.Background(): the CNotify step was not enabled under [wr_blk] and Close() never
+   returned - finding F81.)
+
    Not modelled (environment assumptions, named in the report): the handshake FSM goroutine
-   (assumed to leave when its context is cancelled - abstracted by can_hs), socket writes
-   that block for ever, a second HandshakeContext call after a failed one. *)
+   (assumed to leave when its context is cancelled - abstracted by can_hs), application-data and
+   flight writes that block for ever, a second HandshakeContext call after a failed one. *)
 From Coq Require Import List Bool Arith Lia.
 Import ListNotations.
 
@@ -60,82 +68,90 @@ Record conn := mkConn {
   rd_dl : bool;
   wr_dl : bool;
   hctx : bool;
+  wr_blk : bool; (* the socket does not take writes (peer application not reading on a net.Pipe-like
+                    transport, full buffer): a socket write blocks until its context ends *)
   dual : bool;   (* static: dual-stack configuration (version negotiation before the FSM starts) *)
   v13 : bool     (* static: DTLS 1.3 (Write goes through the FSM) *)
 }.
 
 Definition conn0 (d v : bool) : conn :=
-  mkConn false false false false false false false false 0 0 0 false None false false false false d v.
+  mkConn false false false false false false false false 0 0 0 false None false false false false false d v.
 
 Definition set_closed_user (bu : bool) (c : conn) : conn :=
   mkConn true (by_user c || bu) (est c) (hs_open c) (installed c) (can_hs c) (can_rd c)
     (sock_closed c) (sock_closes c) (cn_close c) (cn_reply c) (cn_once c) (first_err c) (dec_closed c)
-    (rd_dl c) (wr_dl c) (hctx c) (dual c) (v13 c).
+    (rd_dl c) (wr_dl c) (hctx c) (wr_blk c) (dual c) (v13 c).
 Definition set_can_hs (c : conn) : conn :=
   mkConn (closed c) (by_user c) (est c) (hs_open c) (installed c) true (can_rd c)
     (sock_closed c) (sock_closes c) (cn_close c) (cn_reply c) (cn_once c) (first_err c) (dec_closed c)
-    (rd_dl c) (wr_dl c) (hctx c) (dual c) (v13 c).
+    (rd_dl c) (wr_dl c) (hctx c) (wr_blk c) (dual c) (v13 c).
 Definition set_can_rd (c : conn) : conn :=
   mkConn (closed c) (by_user c) (est c) (hs_open c) (installed c) (can_hs c) true
     (sock_closed c) (sock_closes c) (cn_close c) (cn_reply c) (cn_once c) (first_err c) (dec_closed c)
-    (rd_dl c) (wr_dl c) (hctx c) (dual c) (v13 c).
+    (rd_dl c) (wr_dl c) (hctx c) (wr_blk c) (dual c) (v13 c).
 (* sendCloseNotify: closeNotifyOnce.Do(notify(warning, close_notify)).  sync.Once runs the
    function once and makes concurrent callers wait for it, so "test the flag, set it, write the
    record" is one atomic effect.  Called by close() (application Close of an established
    connection) and by the read loop (reply to a received close_notify). *)
+(* Under [wr_blk] the write of close() ends with its 5 s context: the Once is consumed, no record. *)
 Definition send_cn_close (c : conn) : conn :=
   if cn_once c then c else
   mkConn (closed c) (by_user c) (est c) (hs_open c) (installed c) (can_hs c) (can_rd c)
-    (sock_closed c) (sock_closes c) (S (cn_close c)) (cn_reply c) true (first_err c) (dec_closed c)
-    (rd_dl c) (wr_dl c) (hctx c) (dual c) (v13 c).
+    (sock_closed c) (sock_closes c) (if wr_blk c then cn_close c else S (cn_close c)) (cn_reply c) true
+    (first_err c) (dec_closed c)
+    (rd_dl c) (wr_dl c) (hctx c) (wr_blk c) (dual c) (v13 c).
 (* the reply is not written when the socket is already closed (netctx: ErrClosing), but the
    Once is consumed all the same *)
 Definition send_cn_reply (c : conn) : conn :=
   if cn_once c then c else
   mkConn (closed c) (by_user c) (est c) (hs_open c) (installed c) (can_hs c) (can_rd c)
     (sock_closed c) (sock_closes c) (cn_close c)
-    (if sock_closed c then cn_reply c else S (cn_reply c)) true (first_err c) (dec_closed c)
-    (rd_dl c) (wr_dl c) (hctx c) (dual c) (v13 c).
+    (if sock_closed c || wr_blk c then cn_reply c else S (cn_reply c)) true (first_err c) (dec_closed c)
+    (rd_dl c) (wr_dl c) (hctx c) (wr_blk c) (dual c) (v13 c).
 Definition close_sock (c : conn) : conn :=
   mkConn (closed c) (by_user c) (est c) (hs_open c) (installed c) (can_hs c) (can_rd c)
     true (S (sock_closes c)) (cn_close c) (cn_reply c) (cn_once c) (first_err c) (dec_closed c)
-    (rd_dl c) (wr_dl c) (hctx c) (dual c) (v13 c).
+    (rd_dl c) (wr_dl c) (hctx c) (wr_blk c) (dual c) (v13 c).
 (* firstErr is a channel of capacity 1 written with select/default: the first error stays *)
 Definition put_first_err (k : rerr) (c : conn) : conn :=
   mkConn (closed c) (by_user c) (est c) (hs_open c) (installed c) (can_hs c) (can_rd c)
     (sock_closed c) (sock_closes c) (cn_close c) (cn_reply c) (cn_once c)
     (match first_err c with Some e => Some e | None => Some k end) (dec_closed c)
-    (rd_dl c) (wr_dl c) (hctx c) (dual c) (v13 c).
+    (rd_dl c) (wr_dl c) (hctx c) (wr_blk c) (dual c) (v13 c).
 Definition reader_exit (c : conn) : conn :=
   mkConn (closed c) (by_user c) (est c) (hs_open c) (installed c) true (can_rd c)
     (sock_closed c) (sock_closes c) (cn_close c) (cn_reply c) (cn_once c) (first_err c)
     (dec_closed c || est c)
-    (rd_dl c) (wr_dl c) (hctx c) (dual c) (v13 c).
+    (rd_dl c) (wr_dl c) (hctx c) (wr_blk c) (dual c) (v13 c).
 Definition set_est (c : conn) : conn :=
   mkConn (closed c) (by_user c) true (hs_open c) (installed c) (can_hs c) (can_rd c)
     (sock_closed c) (sock_closes c) (cn_close c) (cn_reply c) (cn_once c) (first_err c) (dec_closed c)
-    (rd_dl c) (wr_dl c) (hctx c) (dual c) (v13 c).
+    (rd_dl c) (wr_dl c) (hctx c) (wr_blk c) (dual c) (v13 c).
 Definition set_hs_open (b : bool) (c : conn) : conn :=
   mkConn (closed c) (by_user c) (est c) b (installed c) (can_hs c) (can_rd c)
     (sock_closed c) (sock_closes c) (cn_close c) (cn_reply c) (cn_once c) (first_err c) (dec_closed c)
-    (rd_dl c) (wr_dl c) (hctx c) (dual c) (v13 c).
+    (rd_dl c) (wr_dl c) (hctx c) (wr_blk c) (dual c) (v13 c).
 (* handshake(): fresh ctxHs/ctxRead, cancel functions stored under closeLock *)
 Definition install (c : conn) : conn :=
   mkConn (closed c) (by_user c) (est c) (hs_open c) true false false
     (sock_closed c) (sock_closes c) (cn_close c) (cn_reply c) (cn_once c) (first_err c) (dec_closed c)
-    (rd_dl c) (wr_dl c) (hctx c) (dual c) (v13 c).
+    (rd_dl c) (wr_dl c) (hctx c) (wr_blk c) (dual c) (v13 c).
 Definition set_rd_dl (c : conn) : conn :=
   mkConn (closed c) (by_user c) (est c) (hs_open c) (installed c) (can_hs c) (can_rd c)
     (sock_closed c) (sock_closes c) (cn_close c) (cn_reply c) (cn_once c) (first_err c) (dec_closed c)
-    true (wr_dl c) (hctx c) (dual c) (v13 c).
+    true (wr_dl c) (hctx c) (wr_blk c) (dual c) (v13 c).
 Definition set_wr_dl (c : conn) : conn :=
   mkConn (closed c) (by_user c) (est c) (hs_open c) (installed c) (can_hs c) (can_rd c)
     (sock_closed c) (sock_closes c) (cn_close c) (cn_reply c) (cn_once c) (first_err c) (dec_closed c)
-    (rd_dl c) true (hctx c) (dual c) (v13 c).
+    (rd_dl c) true (hctx c) (wr_blk c) (dual c) (v13 c).
+Definition set_wr_blk (c : conn) : conn :=
+  mkConn (closed c) (by_user c) (est c) (hs_open c) (installed c) (can_hs c) (can_rd c)
+    (sock_closed c) (sock_closes c) (cn_close c) (cn_reply c) (cn_once c) (first_err c) (dec_closed c)
+    (rd_dl c) (wr_dl c) (hctx c) true (dual c) (v13 c).
 Definition set_hctx (c : conn) : conn :=
   mkConn (closed c) (by_user c) (est c) (hs_open c) (installed c) (can_hs c) (can_rd c)
     (sock_closed c) (sock_closes c) (cn_close c) (cn_reply c) (cn_once c) (first_err c) (dec_closed c)
-    (rd_dl c) (wr_dl c) true (dual c) (v13 c).
+    (rd_dl c) (wr_dl c) true (wr_blk c) (dual c) (v13 c).
 
 (* ------------------------------------------------------------------ close(byUser) *)
 
@@ -194,7 +210,11 @@ Definition reader_step (r : rpc) (c : conn) : rpc * conn :=
   | RRead => if can_rd c then (RClassify RCanceled, c)
              else if sock_closed c then (RClassify RSockClosed, c)
              else (RRead, c)
-  | RReply => (RClassify RCn, send_cn_reply c)
+  | RReply =>
+      (* the reply is written under ctxRead: on a socket that does not take writes it waits until
+         ctxRead is cancelled or the socket is closed, then gives up (Once consumed, no record) *)
+      if wr_blk c && negb (can_rd c || sock_closed c) then (RReply, c)
+      else (RClassify RCn, send_cn_reply c)
   | RClassify RCn => (RClose CLock, put_first_err RCn c)
   | RClassify RFatal => (RClose CLock, put_first_err RFatal c)
   | RClassify RCanceled =>
@@ -209,7 +229,18 @@ Definition reader_step (r : rpc) (c : conn) : rpc * conn :=
 
 (* ------------------------------------------------------------------ HandshakeContext caller *)
 
-Inductive hres := HOk | HErr (k : rerr) | HCtx.
+(* HClosed: handshake() got context.Canceled out of firstErr while the connection is closed and
+   the caller's ctx is not done: Close() interrupted the handshake -> ErrConnClosed (commit
+   83f5bff; before, "handshake failed: context canceled" - finding F66) *)
+Inductive hres := HOk | HErr (k : rerr) | HCtx | HClosed.
+
+(* the test made after handshakeLoopsFinished.Wait():
+   "if errors.Is(err, context.Canceled) && ctx.Err() == nil && c.isConnectionClosed() { err = ErrConnClosed }" *)
+Definition resolve (x : hres) (c : conn) : hres :=
+  match x with
+  | HErr RCanceled => if closed c && negb (hctx c) then HClosed else x
+  | _ => x
+  end.
 
 Inductive hpc :=
 | HIdle                 (* HandshakeContext not called *)
@@ -239,7 +270,7 @@ Definition hs_step (b : hbranch) (h : hpc) (r : rpc) (c : conn) : hpc * rpc * co
       | BCtx => if hctx c then (HWait HCtx, r, set_can_hs (set_can_rd c)) else (HSelect, r, c)
       end
   | HWait x => match r with
-               | RDone => (HRet x, r, set_hs_open false c)
+               | RDone => (HRet (resolve x c), r, set_hs_open false c)
                | _ => (HWait x, r, c)
                end
   | HRet x => (HRet x, r, c)
@@ -260,7 +291,8 @@ Inductive env :=
 | ERecvOther      (* some other read/processing error *)
 | EFsmErr         (* the FSM goroutine fails and reports into firstErr *)
 | ERdDeadline | EWrDeadline  (* SetReadDeadline/SetWriteDeadline in the past *)
-| EHsCtx.         (* the context passed to HandshakeContext is done *)
+| EHsCtx          (* the context passed to HandshakeContext is done *)
+| EWrBlock.       (* from now on the socket does not take writes *)
 
 Inductive op :=
 | SpawnClose             (* one more goroutine calls Close() *)
@@ -310,6 +342,7 @@ Definition env_step (e : env) (g : cfg) : cfg :=
   | ERdDeadline => mkCfg (set_rd_dl c) (hs g) (rd g) (us g)
   | EWrDeadline => mkCfg (set_wr_dl c) (hs g) (rd g) (us g)
   | EHsCtx => mkCfg (set_hctx c) (hs g) (rd g) (us g)
+  | EWrBlock => mkCfg (set_wr_blk c) (hs g) (rd g) (us g)
   end.
 
 Definition exec (o : op) (g : cfg) : cfg :=
@@ -369,6 +402,7 @@ Definition hres_class (e : bool) (r : hres) : rclass :=
   | HErr RSockClosed => KNetClosed
   | HErr RCn | HErr RFatal => KAlert
   | HErr ROther => KOther
+  | HClosed => KClosed
   end.
 
 (* ------------------------------------------------------------------ enabledness, quiescence *)
@@ -384,6 +418,7 @@ Definition reader_enabled (r : rpc) (c : conn) : bool :=
   match r with
   | RNone | RDone => false
   | RRead => can_rd c || sock_closed c
+  | RReply => negb (wr_blk c) || can_rd c || sock_closed c
   | _ => true
   end.
 
